@@ -333,6 +333,7 @@ fn build(cx: &Cx, e: &BodyExpr) -> (Incr<i64>, Hid) {
             // The function is also handed to the driver, which may call it later from the top level.
             let underlying = move |key: i64| -> Incr<i64> {
                 let w = weak.upgrade().expect("world gone");
+                w.crash_point();
                 let hid = w.next_hid();
                 let mut lg = logged(&w, hid, vec![]);
                 let n = src.map(move |x: &i64| {
